@@ -22,7 +22,7 @@ fi
 if [ -z "$SKIP_SUITE" ]; then
 env -u SYNAPGRAD_VERIF PYTHONPATH="$WT" /venv/bin/python -m pytest -q -p no:cacheprovider --timeout=900 tests 2>&1 | tail -1 | sed 's/^/suite: /'
 fi
-cd /verif
+cd ${VERIF_DIR:-/verif}
 for P in $PIDS; do
   OUT=$(SYNAPGRAD_ROOT="$WT" VERIF_NO_EVIDENCE=1 ./check "$P" --tier ${TIER:-quick} 2>/dev/null); RC=$?
   NV=$(echo "$OUT" | grep -c '^VIOLATION')
